@@ -603,12 +603,12 @@ func init() {
 			c := singleCoin(argT(fa, burn, 2))
 			r.Check(c != nil && c.Eq(resultT(fa, gb)) && moduleName(argT(fa, burn, 1)) == "alliance", fk, "burns the whole balance from the module account", "BurnCoins(alliance, [GetBalance result])", "burn argument is "+argT(fa, burn, 2).String()+" from "+argT(fa, burn, 1).String(), r.P(burn))
 			okG := fa.HasGuard(burn, func(g Guard) bool {
-				return !g.Pos && g.Cond.IsCall("sdk.Coin.IsZero") && g.Cond.Args[0].Eq(resultT(fa, gb))
+				return !g.Pos && isCoinZeroTest(g.Cond, resultT(fa, gb))
 			})
 			r.Check(okG, fk, "burn iff balance non-zero", "guarded by !coin.IsZero()", "burn is not guarded by the non-zero test of the same balance", r.P(burn))
 			// every success exit passes the balance read; the only way around the burn is the IsZero edge
 			prune := func(g Guard) bool {
-				return g.Pos && g.Cond.IsCall("sdk.Coin.IsZero") && g.Cond.Args[0].Eq(resultT(fa, gb))
+				return g.Pos && isCoinZeroTest(g.Cond, resultT(fa, gb))
 			}
 			if trail := fa.mustReachPruned(fn.Blocks[0].Instrs[0], []ssa.Instruction{burn}, func(ret *ssa.Return) bool { return !fa.IsErrorExit(ret) }, prune); trail != nil {
 				r.Bad(fk, "sweep on every success exit", "CompleteUnbondings can succeed without sweeping staking-denom coins from the module account", trail, r.P(burn))
@@ -767,4 +767,14 @@ func freeVarRoot(v ssa.Value) *ssa.FreeVar {
 			return nil
 		}
 	}
+}
+
+
+// isCoinZeroTest: cond is coin.IsZero() / coin.Amount.IsZero() (one spelling after librarySynonym) of the given coin.
+func isCoinZeroTest(cond *Term, coin *Term) bool {
+	if !cond.IsCall("math.Int.IsZero") || len(cond.Args) == 0 {
+		return false
+	}
+	a := cond.Args[0]
+	return a.Op == "field" && a.Name == "Amount" && a.Args[0].Eq(coin)
 }
